@@ -31,6 +31,7 @@ for d in sorted(glob.glob(os.path.join(VERIF, 'seeded', '*'))):
                        "python3 validation/run_mutations.py [--all-checks] --seed-dir seeded/%s  (quick checks against the scratch copy)" % sid]
     m['checks_result'] = {c: {'exit': x['rc'], 'signatures': x['signatures'], 'first_line': x['first']} for c, x in r['checks'].items()}
     m['caught_by'] = r['caught_by']
+    m['caught_in_tier'] = r.get('tier', 'quick')
     before = None
     bf = os.path.join(HERE, 'results-before', 'seed-%s.json' % sid)
     if os.path.exists(bf):
@@ -41,14 +42,14 @@ for d in sorted(glob.glob(os.path.join(VERIF, 'seeded', '*'))):
     others = [c for c in r['caught_by'] if c != tgt]
     sig = (r['checks'].get(tgt, {}).get('signatures') or [''])[:2]
     rows.append((sid, tgt, txt(m.get('what_it_breaks'))[:220], txt(m.get('needs_to_manifest'))[:180], before,
-                 tgt in r['caught_by'], others, len(r['checks']), ', '.join(sig)))
+                 tgt in r['caught_by'], others, len(r['checks']), ', '.join(sig), r.get('tier', 'quick')))
 
 out = open(os.path.join(HERE, 'seeds_head.md')).read()
 out += "| seed | property | what it breaks | needs | targeted check before strengthening | targeted check now | other checks that also fire | signatures (targeted) |\n|---|---|---|---|---|---|---|---|\n"
-for sid, p, what, needs, before, now, others, nchecks, sig in rows:
+for sid, p, what, needs, before, now, others, nchecks, sig, tier in rows:
     b = 'n/a (round 1)' if before is None else ('caught' if p in before else '**missed**')
     o = ', '.join(others) if nchecks > 1 else '(matrix not run)'
-    out += "| %s | %s | %s | %s | %s | %s | %s | %s |\n" % (sid, p, what, needs, b, 'caught' if now else '**missed**', o or 'none', sig.replace('|', '/'))
+    out += "| %s | %s | %s | %s | %s | %s | %s | %s |\n" % (sid, p, what, needs, b, ('caught' + (' (thorough tier only)' if tier == 'thorough' else '')) if now else '**missed**', o or 'none', sig.replace('|', '/'))
 out += "\n" + open(os.path.join(HERE, 'seeds_notes.md')).read()
 open(os.path.join(HERE, 'seeds.md'), 'w').write(out)
 print("seeds.md: %d seeds, %d caught by their targeted check" % (len(rows), sum(1 for r in rows if r[5])))
